@@ -78,7 +78,9 @@ func (pr *PatternRouter) RouteHTTP(r *http.Request) (grpcadapter.ClientConn, HTT
 	// Specifically, use RawPath for pattern matching, since it will be properly decoded by the pattern itself.
 	path := r.URL.RawPath
 	if path == "" {
-		path = r.URL.Path
+		// An empty RawPath means that the default encoding of Path is what the client has sent,
+		// while Path itself is already decoded and would get decoded a second time by the pattern.
+		path = r.URL.EscapedPath()
 	}
 
 	if !strings.HasPrefix(path, "/") {
